@@ -38,6 +38,13 @@ type World struct {
 	overlay map[string][]byte
 }
 
+func buildTags() string {
+	if os.Getenv("GOSYM_GEN") != "" {
+		return "verif,verifgen"
+	}
+	return "verif"
+}
+
 func verifRoot() string {
 	if r := os.Getenv("VERIF_ROOT"); r != "" {
 		return r
@@ -75,6 +82,13 @@ func buildOverlay(extra map[string][]byte) (map[string][]byte, []string) {
 			src, _ := os.ReadFile(f)
 			ov[filepath.Join(repoRoot(), dir, "zz_verif_"+filepath.Base(f))] = src
 		}
+		if g := os.Getenv("GOSYM_GEN"); g != "" {
+			gfiles, _ := filepath.Glob(filepath.Join(genDir(), name, "*.go"))
+			for _, f := range gfiles {
+				src, _ := os.ReadFile(f)
+				ov[filepath.Join(repoRoot(), dir, "zz_verif_gen_"+filepath.Base(f))] = src
+			}
+		}
 		ov[filepath.Join(repoRoot(), dir, "zz_verif_api.go")] = []byte(strings.Replace(string(api), "package PKG", "package "+pkgName, 1))
 		if dir == "." {
 			patterns = append(patterns, ".")
@@ -96,7 +110,7 @@ func loadWorld(extra map[string][]byte) *World {
 		Mode:       packages.LoadAllSyntax,
 		Dir:        repoRoot(),
 		Overlay:    ov,
-		BuildFlags: []string{"-tags=verif"},
+		BuildFlags: []string{"-tags=" + buildTags()},
 		Env:        append(os.Environ(), "GOFLAGS=-mod=mod", "GOPROXY=off", "GOSUMDB=off", "GOTOOLCHAIN=local"),
 	}
 	pkgs, err := packages.Load(cfg, patterns...)
@@ -152,6 +166,7 @@ type HarnessResult struct {
 	AssertsTriv int               `json:"assert_checks_folded"`
 	UnwindFail  int               `json:"unwind_failures"`
 	Unknown     int               `json:"unknown_queries"`
+	ModelRetries int              `json:"model_retries"`
 	Unsupported map[string]int    `json:"unsupported,omitempty"`
 	Failures    []Failure         `json:"failures,omitempty"`
 	KnownHits   map[string]int    `json:"known_hits,omitempty"`
@@ -166,6 +181,7 @@ type HarnessResult struct {
 	Stubs       []string          `json:"stubs_used,omitempty"`
 	EngineErr   string            `json:"engine_error,omitempty"`
 	SolverErr   string            `json:"solver_error,omitempty"`
+	FailedIDs   map[string]bool   `json:"failed_ids,omitempty"`
 	Out         map[string]int    `json:"out,omitempty"`
 	SampleTape  []TapeEntry       `json:"sample_tape,omitempty"`
 	SamplePC    string            `json:"sample_pc,omitempty"`
@@ -338,6 +354,7 @@ func fillResult(res *HarnessResult, in *Interp, ex *Explorer, solver *Solver, ba
 	res.AssertsTriv = ex.AssertsTrivial
 	res.UnwindFail = ex.UnwindFail
 	res.Unknown = ex.Unknown + ex.Mismatch
+	res.ModelRetries = ex.ModelRetries
 	res.Unsupported = ex.Unsupported
 	res.Failures = ex.Failures
 	res.KnownHits = ex.KnownHits
@@ -347,6 +364,7 @@ func fillResult(res *HarnessResult, in *Interp, ex *Explorer, solver *Solver, ba
 	res.Samples = ex.Samples
 	res.Steps = in.totalSteps + in.steps
 	res.Out = ex.Out
+	res.FailedIDs = ex.FailedIDs
 	if res.Solver.Errors > 0 {
 		res.SolverErr = solver.lastErr
 	}
